@@ -5,7 +5,9 @@ PID = 'C14'
 
 
 def items():
-    return tpk.scenarios() + [s for s in subpackets.scenarios() if PID in getattr(s, 'props', ())]
+    # 'binary or armored': the armor writer, its checksum and the reader are part of every armored export / import
+    from contracts import armor
+    return tpk.scenarios() + [s for s in subpackets.scenarios() + armor.scenarios() if PID in getattr(s, 'props', ())]
 
 
 def run(tier='quick', seed=0, only=None):
@@ -13,7 +15,8 @@ def run(tier='quick', seed=0, only=None):
     bounded = []
     if not only:
         from bounded import tpk as bt
-        bounded = [bt.component]
+        from bounded import armor as _ba
+        bounded = [bt.component, _ba.short_crc_component]          # (an armored export whose checksum has a zero leading octet: 1 in 256 by chance)
     return runner.run_property(PID, its, bounded=bounded, tier=tier, seed=seed, level='proof',
                                trusted_base=['pyvc symbolic executor', 'z3 5.1 / cvc5 1.0.3'],
                                assumptions=['export: component counts are concrete (2 key signatures, 2 user ids, 2 subkeys), every flag and octet string symbolic; '
